@@ -13,7 +13,7 @@ CHECKS = {
               "each fed to the real link::reader::Reader through PhysLayer::Verif and compared with the reference de-framer; "
               "a case is non-trivial when the oracle was evaluated on it; distinct = distinct (part, mode, payload-length class, chunking class, "
               "mutation/noise class, buffer size) tuples"),
-        runs=[dict(check="c06", timeout_s=900)],
+        runs=[dict(check="c06", scale=6, timeout_s=900)],
         required=["roundtrip_ok", "flip1_rejected", "flip2_rejected", "flip3_rejected", "noise_target_found",
                   "datagram_split_not_stitched", "datagram_whole_ok", "single_split_sweeps", "buffer_wrap_cases"],
         thorough_scale=30.0,
@@ -36,7 +36,7 @@ CHECKS = {
         rule=("part A: exhaustive table 256 control bytes x 7 destination classes x 7 source classes x {master,outstation} x self-address on/off x 3 secondary states x {empty,6-byte} payload "
               "on the real link::layer::Layer, each followed by a link-status probe; part A2: random FCB sequences; part B (when built): application fragments from foreign master/broadcast in each session state. "
               "distinct = (role, function class, FCV, destination class, source class, self-address, secondary state, payload) tuples"),
-        runs=[dict(check="c07", timeout_s=900)],
+        runs=[dict(check="c07", scale=8, timeout_s=900)],
         required=["link_status_answered", "confirmed_delivered", "confirmed_duplicate_suppressed"],
         thorough_scale=20.0,
         exhaustive_note="link table: all 256 control bytes x 7 dest x 7 src x roles x self-address x 3 secondary states x 2 payloads enumerated completely on every run",
@@ -47,7 +47,7 @@ CHECKS = {
         rule=("scenario = random outstation configuration (tx/rx sizes, decode level, unsolicited on/off, limits) x session state (idle, solicited confirm wait, unsolicited ready, unsolicited confirm wait) "
               "x 1-6 generated requests (8 classes: acceptable, no-reply functions, every unsupported function code, bad header flags, unparsable objects, header rejected for the function at first/middle/last/only position, unexpected objects); "
               "rules S1-S5 evaluated on every transmitted fragment; distinct = (state, request class incl. function code and position, deferred/now) tuples in which a rule was evaluated"),
-        runs=[dict(check="c12", timeout_s=900)],
+        runs=[dict(check="c12", scale=10, timeout_s=900)],
         required=["S1_seq_ok", "S3_no_reply_ok", "S4_size_ok", "S4_parse_ok", "S5_error_reported", "unsol_fragments_checked", "unsol_seq_consecutive", "series_continuations", "deferred_reads", "state_sol_confirm_wait_reached"],
         thorough_scale=25.0,
         abnormal_exit_is_violation=True,
@@ -58,7 +58,7 @@ CHECKS = {
         rule=("history = sequence over {SELECT, OPERATE(same objects / one byte differs), DIRECT_OPERATE, READ, CONFIRM, malformed, broadcast, foreign-master, exact repeat, advance to T-1/T/T+1 ms of the select timeout, reconnect close/pre-empt} "
               "with adversarial sequence numbers; systematic part: SELECT,x,OPERATE and SELECT,x,y,OPERATE for all x,y of a 12-symbol alphabet; every OPERATE is judged by the reference justification predicate; "
               "distinct = (verdict reason incl. which conjunct fails / what intervened, polled|unsolicited, number of select repeats)"),
-        runs=[dict(check="c04", timeout_s=900)],
+        runs=[dict(check="c04", scale=10, timeout_s=900)],
         required=["justified_executed_once", "unjustified_rejected", "selects_successful", "selects_failed", "select_repeats", "systematic_histories"],
         thorough_scale=25.0,
         abnormal_exit_is_violation=True,
@@ -70,7 +70,7 @@ CHECKS = {
         rule=("scenario = configuration (tx sizes 249..2048, unsolicited on/off, retry limits) x one of: (a) every executing non-READ function sent, then repeated 1-3 times after {nothing, a new event, a time advance}, from idle / unsolicited-ready / unsolicited confirm wait; "
               "(b1) READ answered by a 1..n fragment series, the READ repeated 1-3 times while fragment k awaits its confirm; (b2) data unsolicited response retried after confirm timeouts while events arrive or solicited traffic uses the other buffer. "
               "distinct = (part, function/request shape, session state, disturbance, fragment number, retry number) tuples"),
-        runs=[dict(check="c05", timeout_s=900)],
+        runs=[dict(check="c05", scale=10, timeout_s=900)],
         required=["repeat_not_executed", "repeat_echo_identical", "repeat_no_reply_ok", "series_echo_identical", "series_echo_identical_frag2plus", "unsol_retry_identical", "multi_fragment_series"],
         thorough_scale=25.0,
         abnormal_exit_is_violation=True,
@@ -82,7 +82,7 @@ CHECKS = {
               "{1-5 uniquely time-stamped forced updates, READ by class/type/count-limited with a per-fragment follow-up action (right confirm, wrong sequence, wrong UNS, timeout, late confirm, aborting request, reconnect close/pre-empt, leave), "
               "ENABLE/DISABLE_UNSOLICITED, reaction to an outstanding unsolicited response (confirm right/wrong, timeout/retry, DISABLE, reconnect), restart-bit write, application flags, broadcast}; "
               "ledger rules R0-R6 evaluated on every update result, every event object on the wire and every event_cleared callback; distinct = (profile, solicited/unsolicited, fragment number, follow-up action) tuples"),
-        runs=[dict(check="c03", timeout_s=900)],
+        runs=[dict(check="c03", scale=10, timeout_s=900)],
         required=["events_created", "overflows", "event_objects_attributed", "R1_release_justified", "R3_conservation_ok", "R4_order_ok", "R5_selection_prefix_ok", "R5_unsol_selection_ok",
                   "confirms_with_expected_release", "sol_timeouts", "late_confirms", "aborts", "reconnect_close", "reconnect_preempt", "disable_during_unsol_wait", "reads_deferred", "unsol_retries"],
         thorough_scale=30.0,
@@ -94,7 +94,7 @@ CHECKS = {
         rule=("same driver as C03 with a profile weighted to small buffers (overflow striking written and unwritten events), broadcasts of the three confirm modes, restart-bit writes and application flag flips; "
               "every freshly built response (solicited and unsolicited) has its IIN octets compared with the ledger: class bits, overflow, restart, broadcast, need-time/local-control/device-trouble/config-corrupt; "
               "distinct = (profile, solicited/unsolicited, fragment number, follow-up action) tuples"),
-        runs=[dict(check="c13", timeout_s=900)],
+        runs=[dict(check="c13", scale=10, timeout_s=900)],
         required=["iin_checked", "class_bit_ok", "overflow_bit_set_ok", "restart_bit_ok", "app_bit_set_ok", "broadcast_bit_ok", "restart_writes", "broadcasts", "overflow_discarded_carried_event"],
         thorough_scale=30.0,
         abnormal_exit_is_violation=True,
@@ -120,7 +120,7 @@ CHECKS = {
               "{class 0, all objects of a group with default or specific variation, 8/16-bit ranges incl. overlapping and end-of-range}; per fragment: updates applied while it awaits its confirm, then right confirm / wrong+right / timeout+late confirm / reconnect close / reconnect pre-empt / new request; "
               "the concatenated static objects are compared header by header with the mirror snapshot taken when the request was sent; the C03 driver is run as a second part for the event side of series gating. "
               "distinct = (fragments in series, how it ended, tx size, headers) tuples"),
-        runs=[dict(check="c11", timeout_s=900), dict(check="c03", timeout_s=900, scale=0.5)],
+        runs=[dict(check="c11", scale=10, timeout_s=900), dict(check="c03", timeout_s=900, scale=4)],
         required=["objects_checked", "complete_series_ok", "multi_fragment_series_ok", "partial_series_prefix_ok", "updates_between_fragments", "wrong_confirms", "series_ended_by_timeout", "series_ended_by_reconnect", "series_ended_by_new_request"],
         thorough_scale=25.0,
         abnormal_exit_is_violation=True,
@@ -131,7 +131,7 @@ CHECKS = {
         rule=("scenario = unsolicited-enabled outstation (retry limit None/0/1/3, confirm timeout 50..1000 ms, retry delay 0..5000 ms) x 4-22 steps from {advance exactly T, T-1, 1 ms, D, random; right/wrong unsolicited confirm; update of a class 1/2/3 point; "
               "ENABLE/DISABLE of random classes; READ; non-READ request; reconnect close/pre-empt}; rules U1-U8 are evaluated afterwards over the virtual-time-stamped log of every unsolicited and solicited fragment; "
               "the C03 driver (unsolicited selection and U1 on data) runs as a second part. distinct = (retry limit, timeout, delay, number of unsolicited transmissions, null confirmed) tuples"),
-        runs=[dict(check="c14", timeout_s=900), dict(check="c03", timeout_s=900, scale=0.5)],
+        runs=[dict(check="c14", scale=10, timeout_s=900), dict(check="c03", timeout_s=900, scale=4)],
         required=["U1_fresh_null_sequence_ok", "null_confirmed_scenarios", "U2_data_responses_checked", "U4_retry_ok", "U5_retry_delay_ok", "U7_non_read_immediate_ok", "U7_deferred_read_served_ok", "U7_read_idle_ok", "U8_prompt_unsolicited_ok",
                   "new_series_after_confirm", "new_series_after_reconnect", "new_series_after_disable"],
         thorough_scale=25.0,
@@ -143,7 +143,7 @@ CHECKS = {
         rule=("scenario = master with two associations on one channel; 1-3 user tasks (read single/multi-fragment, direct operate, select+operate, non-LAN time sync, restart, dead-band write, empty-response request); for each the harness (as outstation) sends a stream of 0-4 unacceptable fragments "
               "{wrong sequence, wrong source (other association / unknown), solicited with UNS, illegal FIR/FIN/CON for the position, IIN2 rejection, unsolicited (null/data), duplicate unsolicited, truncated objects, unknown object} optionally followed by the faithful answer; "
               "distinct = (task kind, fragment class, fragment position, CON) tuples in which the acceptance/confirm/delivery rules were evaluated"),
-        runs=[dict(check="c15", timeout_s=900)],
+        runs=[dict(check="c15", scale=10, timeout_s=900)],
         required=["accepted_confirmed_ok", "rejected_not_confirmed_ok", "completed_with_answer_ok", "not_completed_without_answer_ok", "deliveries_match_ok", "unsolicited_confirmed_ok", "unsolicited_delivery_ok", "unsolicited_duplicates_sent", "startup_unsol_retry_delivered_ok", "startup_unsol_duplicate_null_ok", "long_series_ok"],
         thorough_scale=25.0,
         abnormal_exit_is_violation=True,
@@ -154,7 +154,7 @@ CHECKS = {
         rule=("part A: for generated command sets (5 control types, 8/16-bit indices, 1-3 headers) and both modes, the COMPLETE catalogue of single-change echo mutations (every status code, every value byte, index, dropped/duplicated/swapped object, prefix width, variation, dropped/swapped/extra header, empty, truncated, IIN2 rejection) applied to the first reply and, for select-before-operate, to the second; "
               "part B: every request kind (read, direct operate, select+operate, 3 time-sync procedures, cold/warm restart, dead-band write, link status, empty-response) x every protocol step x {no failure, reply lost, reply lost with channel chatter, link error, channel disabled, association removed}; part Q: queue full and no connection. "
               "distinct = (part, mode, mutation class, step) and (request kind, step, failure) tuples"),
-        runs=[dict(check="c16", timeout_s=900)],
+        runs=[dict(check="c16", scale=6, timeout_s=900)],
         required=["faithful_echo_ok", "mutated_echo_rejected", "operate_withheld_ok", "operate_matches_select_ok", "catalogue_runs", "faithful_exchange_ok", "failure_reported_in_time", "failure_points_enumerated", "queue_full_rejected_ok", "no_connection_rejected_ok"],
         thorough_scale=12.0,
         abnormal_exit_is_violation=True,
@@ -165,7 +165,7 @@ CHECKS = {
         level="exploration",
         rule=("generated association configurations (disable/enable/integrity classes on or off, three time-sync procedures, retry min/max with non power-of-two ratios, keep-alive, periodic poll) against a scripted outstation that answers faithfully with scripted IIN1.7 / IIN1.4 bits, stays silent for the first n attempts of one automatic task, injects empty and data-bearing unsolicited responses at random positions and reconnects; "
               "M1 order of first occurrences per connection, M2 clear-restart is the next request after IIN1.7 and integrity/enable are repeated before polls resume, M3 unsolicited data is neither delivered nor confirmed before integrity completes (empty ones are confirmed; data is delivered after), M4 exact back-off delays in virtual time"),
-        runs=[dict(check="c17", timeout_s=900)],
+        runs=[dict(check="c17", scale=2, timeout_s=900)],
         required=["M1_step_in_order_ok", "M1_full_startup_seen", "M2_step_in_order_ok", "poll_after_startup_ok", "M3_gated_ok", "M3_gated_after_restart_ok", "M3_null_confirmed_ok", "M3_delivered_after_integrity_ok", "M4_backoff_ok", "M4_backoff_ok_Silent", "M4_backoff_ok_BadReply", "M4_backoff_ok_Stubborn", "M4_backoff_at_max_ok", "unsolicited_idle", "unsolicited_awaiting_reply", "unsolicited_back_off"],
         thorough_scale=12.0,
         abnormal_exit_is_violation=True,
@@ -175,7 +175,7 @@ CHECKS = {
         level="exploration",
         rule=("1-3 associations on one channel, 0-2 polls each with periods 300..2500 ms, keep-alive off/1500/4000 ms, user reads and writes submitted singly and in bursts at arbitrary virtual instants (many aligned with poll deadlines), poll demands, replies prompt / late / never, unsolicited, stale and link-layer noise; "
               "a reference schedule model is evaluated at every request written: Q1 FIFO per association and user requests ahead of polls/keep-alives, Q2 polls never before completion+period, Q3 least-recently-served association first, Q4 keep-alive only after silence and after due polls, Q5 one outstanding request, Q6 write instant == max(channel free, earliest eligibility) exactly and scheduler passes bounded by events"),
-        runs=[dict(check="c19", timeout_s=900)],
+        runs=[dict(check="c19", scale=3, timeout_s=900)],
         required=["Q1_fifo_ok", "Q1_no_user_waiting_ok", "Q2_poll_not_early_ok", "Q3_turn_taken_in_order_ok", "Q4_keep_alive_after_silence_ok", "Q5_channel_free_ok", "Q6_wake_exact_ok", "Q6_woke_at_deadline_ok", "Q6_no_spin_ok"],
         thorough_scale=12.0,
         abnormal_exit_is_violation=True,
@@ -195,7 +195,7 @@ CHECKS = {
         level="exploration",
         rule=("real outstation database -> response / unsolicited writers -> relay -> real master parser, extraction and handler; points of all eight types at indices 0 .. 65535 with every configurable static and event variation; values at and around every representation boundary (i16/i32/f32 limits +-1, NaN, infinities, -0.0, random bit patterns, counters around 2^16 and 2^32), every flag octet, 48-bit times along a line with gaps 0, 1, 65534..65536, 70000, negative, and sync flips; "
               "class 0, per-variation range reads, event reads and unsolicited delivery; each handler record is judged by a hand-written 'what this variation can carry' function of the database value"),
-        runs=[dict(check="c10", timeout_s=900)],
+        runs=[dict(check="c10", scale=4, timeout_s=900)],
         required=["event_values_ok", "static_values_ok", "relative_time_reconstructed_ok", "ok_g1v1", "ok_g1v2", "ok_g2v3", "ok_g4v3", "ok_g20v6", "ok_g30v2", "ok_g30v5", "ok_g32v4", "ok_g32v7", "ok_g42v8", "ok_g111v1"],
         thorough_scale=12.0,
         abnormal_exit_is_violation=True,
